@@ -20,6 +20,8 @@ CONSTANTS Ctx <- McCtx
  BGL = {}
  BoxFrom = {}
  BoxTo = {}
+ BoxSeqs = {}
+ SpendFrom = {}
  RewFrom = {}
  RewTerms = {}
  RewAmt = {}
